@@ -82,6 +82,7 @@ type Commit struct {
 
 // Clone clones a commit into a new one
 func (c *Commit) Clone() (clone Commit) {
+	clone.ID = c.ID
 	clone.Chunk = c.Chunk
 	for _, u := range c.Updates {
 		if len(u.buffer) > 0 {
